@@ -131,6 +131,11 @@ xsurv0_pipe_init(void *arg, nni_pipe *npipe, void *s)
 	nni_aio_init(&p->aio_send, xsurv0_send_cb, p);
 	nni_aio_init(&p->aio_recv, xsurv0_recv_cb, p);
 
+	// Set these first: the pipe is closed and finalized by the core (which
+	// looks at the socket) even when this function fails.
+	p->npipe = npipe;
+	p->psock = s;
+
 	// This depth could be tunable.  The queue exists so that if we
 	// have multiple requests coming in faster than we can deliver them,
 	// we try to avoid dropping them.  We don't really have a solution
@@ -142,8 +147,6 @@ xsurv0_pipe_init(void *arg, nni_pipe *npipe, void *s)
 		return (rv);
 	}
 
-	p->npipe = npipe;
-	p->psock = s;
 	return (0);
 }
 
